@@ -44,7 +44,7 @@ RULE = (
     "Hypothesis draws a contractive coupled system (2-5 disciplines, output sizes 1-3, 1-3 design inputs of size 1-2, "
     "rings, several strongly connected components, weakly coupled pre/post and self-coupled disciplines, tanh terms, "
     "non-coupling outputs, dense, sparse or matrix-free JacobianOperator partial Jacobians, optionally disciplines in "
-    "residual/state form (state solved by the discipline, or by a Newton MDA), feed-forward systems one case in five, optionally design inputs whose whole effect is scaled by 1e-10 or 1e-13), input "
+    "residual/state form (state solved by the discipline, or by a Newton MDA), feed-forward systems two cases in seven, optionally design inputs whose whole effect is scaled by 1e-10 or 1e-13), input "
     "values, an MDA (GaussSeidel, Jacobi, NewtonRaphson, MDAChain with either inner MDA and chain_linearize on/off; "
     "tolerance 1e-14), a linearisation configuration (mode auto/direct/adjoint, matrix or linear operator, LU on/off, "
     "linear solver among DEFAULT/LGMRES/GMRES/BICGSTAB/BICG/CGS/GCROT/TFQMR at tolerance 1e-12) and 1-3 successive "
@@ -82,7 +82,7 @@ MDAS = ["MDAGaussSeidel", "MDAJacobi", "MDANewtonRaphson", "MDAChain", "MDAChain
 
 @st.composite
 def cases(draw):
-    shape = draw(st.sampled_from(["any", "any", "any", "ring", "feed_forward", "state_ring"]))
+    shape = draw(st.sampled_from(["any", "any", "any", "ring", "feed_forward", "feed_forward", "state_ring"]))
     system = draw(coupled_systems(state_form=True if shape == "state_ring" else draw(st.booleans()), operator_jacobians=True,
                                   input_scales=draw(st.integers(0, 2)) == 0,
                                   all_strong=True if shape in ("ring", "state_ring") else None, acyclic=shape == "feed_forward",
